@@ -684,9 +684,9 @@ def input_value(rng: random.Random, var: str, lattice: bool = False):
     if vt == "int":
         return rng.choice([0, 1, 2, 3, 5, -4, 12, 100, rng.randint(-20, 50)])
     if vt == "float":
-        pool = [0.0, 0.5, 2.5, -1.25, 1000.0, rng.randint(-64, 64) / 8, 3]
+        pool = [0.0, 0.5, 2.5, -1.25, 100.0, rng.randint(-64, 64) / 8, 3]
         if not lattice:
-            pool += [0.1, 2.6, 1e-3, 33.33]
+            pool += [0.1, 2.6, 1e-3, 33.33, 1000.0]
         return rng.choice(pool)
     if vt == "bool":
         return rng.random() < 0.5
@@ -1171,6 +1171,16 @@ def yaml_grid(rng: random.Random):
     return cases
 
 
+def enumerate_thorough():
+    """the complete grid value type x layout x relation to the margin x margin kind, on three further
+    fixed populations (the grid of `generate` uses the run's seed)"""
+    A.system()
+    out = []
+    for k in (101, 202, 303):
+        out += yaml_grid(random.Random(k))
+    return out
+
+
 # --------------------------------------------------------------------------------------
 # generators: listings
 
@@ -1240,7 +1250,7 @@ def malformed_lines():
 def generate(rng: random.Random, tier: str):
     A.system()
     quick = tier == "quick"
-    n_calc, n_trace, n_seq, n_yaml_files, n_odd, n_sys = (450, 150, 90, 110, 60, 8) if quick else (3000, 900, 400, 700, 300, 30)
+    n_calc, n_trace, n_seq, n_yaml_files, n_odd, n_sys = (450, 150, 90, 110, 60, 8) if quick else (6000, 1800, 800, 1400, 500, 50)
     out = []
     for k in range(n_calc):
         doc = gen_doc(rng)
@@ -1356,8 +1366,15 @@ PROP = Prop(
     lean_targets=["OFCore.Props.C20"],
     driver="ofdrv_api",
     generate=generate, impl=impl, oracle=oracle, nontrivial=nontrivial, corpus=corpus, neighbours=neighbours,
-    init_worker=init_worker,
+    init_worker=init_worker, enumerate_thorough=enumerate_thorough,
     search_budget_factor=2,
+    level_text=("Theorems (Lean 4, all JSON documents, all engines, all tests): the /calculate answer fills every null slot with "
+                "render(engine value), keeps every other leaf and the whole key structure; it answers iff the engine has a value "
+                "for every slot; answers are fixed points; /trace reports the same values under the canonical period key; the "
+                "verdict of a YAML test is 'pass' iff every expectation of the normalised layouts holds within the margins "
+                "(<= at the margin, fail just beyond), the three layouts agree; parameter histories and formula dates as served "
+                "read back to the engine's value on every day (partial: scales left to the correspondence). The handler's "
+                "statelessness is a property of the model by construction and of the code by the sequence correspondence only."),
     extra_lean_files=["OFCore/Api.lean", "OFCore/Lemmas/Api.lean", "OFCore/Drv/Api.lean"],
     rule=("a programmatic tax-benefit system (person + household with adults/children; input and formula variables of every "
           "value type: int, float, bool, str, str with max_length, date, Enum; month/year/day/eternity definition periods; dated "
